@@ -18,6 +18,12 @@ use super::*;
 use crate::gen;
 use crate::worlds::dframe::varint;
 
+/// An IPv4-mapped IPv6 address (`::ffff:a.b.c.d`): a distinct encoding of a host that also has an IPv4 form.
+fn mapped_v4(n: u64) -> radicle::node::Address {
+    let v4 = std::net::Ipv4Addr::new(9, 9, (n >> 8) as u8, n as u8);
+    radicle::node::Address::from(std::net::SocketAddr::from((v4.to_ipv6_mapped(), 8776)))
+}
+
 impl<'a> Sim<'a> {
     pub fn main_loop(&mut self) {
         let steps = self.sw.steps;
@@ -130,7 +136,8 @@ impl<'a> Sim<'a> {
         };
         let link = if self.conns[&conn].a == Ep::Puppet(p) { Link::Outbound } else { Link::Inbound };
         // 0 => an honest, fresh node announcement of the puppet itself
-        let kind = self.ch.weighted(&[3, 5, 5, 4, 3, 1, 1, 1, 2, 1, 1]);
+        // the encoding check wants many byte-level variations of otherwise valid messages
+        let kind = if self.own == "C15" && self.sw.f_bytes { self.ch.weighted(&[3, 5, 5, 4, 3, 2, 2, 1, 2, 6, 1]) } else { self.ch.weighted(&[3, 5, 5, 4, 3, 1, 1, 1, 2, 1, 1]) };
         let bytes: Vec<u8> = match kind {
             0 | 1 | 2 => {
                 let m = self.puppet_announcement(p, node, kind as u8);
@@ -202,7 +209,7 @@ impl<'a> Sim<'a> {
                     return;
                 }
                 self.res.hit("fault.puppet.raw_bytes");
-                match self.ch.pick(4) {
+                match if self.own == "C15" { self.ch.weighted(&[2, 5, 1, 1]) } else { self.ch.pick(4) as usize } {
                     0 => {
                         let m = self.puppet_announcement(p, node, 1);
                         let mut b = Frame::gossip(link, m).to_bytes();
@@ -211,9 +218,31 @@ impl<'a> Sim<'a> {
                         b
                     }
                     1 => {
-                        let m = self.puppet_announcement(p, node, 2);
+                        // a complete frame whose inner message is cut short: an announcement, or a ping / pong
+                        // with fewer zero bytes than its length says, or a node announcement whose trailing
+                        // user agent is not a valid one
+                        let which = self.ch.pick(4);
+                        let m = match which {
+                            0 => self.puppet_announcement(p, node, 2),
+                            1 => Message::Ping(Ping { ponglen: 5, zeroes: ZeroBytes::new(*self.ch.choose(&[3u16, 9, 200])) }),
+                            2 => Message::Pong { zeroes: ZeroBytes::new(*self.ch.choose(&[3u16, 9, 200])) },
+                            _ => self.puppet_announcement(p, node, 0),
+                        };
                         let mut b = wire::serialize(&m);
-                        let cut = 1 + self.ch.pick_usize(b.len() - 1);
+                        if which == 3 {
+                            // alter the last byte (the closing '/' of the agent, when there is one)
+                            let l = b.len();
+                            b[l - 1] = *self.ch.choose(&[b'!', 0xff, b' ', b'a']);
+                            self.res.hit("fault.puppet.node_announcement_with_invalid_agent");
+                        }
+                        let cut = if which == 3 {
+                            b.len()
+                        } else if which == 0 {
+                            1 + self.ch.pick_usize(b.len() - 1)
+                        } else {
+                            self.res.hit("fault.puppet.truncated_ping_or_pong");
+                            b.len() - 1 - self.ch.pick_usize(2)
+                        };
                         b.truncate(cut);
                         let mut out = vec![b'r', b'a', b'd', 1];
                         varint(0b010, 1, &mut out);
@@ -276,7 +305,7 @@ impl<'a> Sim<'a> {
             0 => {
                 let seed = self.ch.pick(8) == 1; // SEED => address book update + proof-of-work check (scrypt): keep it rare
                 let n = self.ch.pick(3) as u64;
-                gen::node_announcement(tsv, &format!("k{kidx}"), (0..n).map(|i| gen::addr_of(100 + kidx * 4 + i)).collect(), if seed { Features::SEED } else { Features::NONE }, if self.ch.pick(2) == 0 { Some("/radicle:sim/") } else { None }).into()
+                gen::node_announcement(tsv, &format!("k{kidx}"), (0..n).map(|i| if self.ch.pick(6) == 5 { mapped_v4(100 + kidx * 4 + i) } else { gen::addr_of(100 + kidx * 4 + i) }).collect(), if seed { Features::SEED } else { Features::NONE }, if self.ch.pick(2) == 0 { Some("/radicle:sim/") } else { None }).into()
             }
             1 => {
                 let mut rids = Vec::new();
